@@ -28,11 +28,18 @@ __BEGIN_DECLS
  * - Typical use: document IDs, timestamps, sorted lists
  */
 
+#if defined(MATTSTA_VARINT_VERIF) && defined(VARINT_VERIF_BP128_BLOCK_SIZE)
+/* verification hook: scaled block size so that full-block / partial-block
+ * transitions can be explored with a handful of symbolic elements */
+#define VARINT_BP128_BLOCK_SIZE VARINT_VERIF_BP128_BLOCK_SIZE
+#define VARINT_BP128_MAX_BLOCK_BYTES (1 + VARINT_VERIF_BP128_BLOCK_SIZE * 8)
+#else
 /* Block size must be 128 for SIMD efficiency */
 #define VARINT_BP128_BLOCK_SIZE 128
 
 /* Maximum bytes per block: 1 byte header + 128 * 8 bytes data */
 #define VARINT_BP128_MAX_BLOCK_BYTES (1 + 128 * 8)
+#endif
 
 /* Metadata for encoded data */
 typedef struct varintBP128Meta {
